@@ -66,6 +66,12 @@ CLAIMED.update({
     "C15": ("exhaustive enumeration over a spec table of 127 callables x container forms x int/float x lengths 0..8 x unit / order names + Hypothesis-drawn values; oracle: identity with the 1-D array form, must-raise for wrong lengths / unknown options, deg = rad*pi/180",
             EXPL + "every exported base function and class constructor/method with a vector, angle, unit or order argument (table checked for completeness against spatialmath.base.__all__ at start-up) is called in all five container forms (three for classes), with every wrong length 0..8, both units, all order names, aliases and misspellings, and scalar-vs-packed call forms.",
             "the spec table and its exclusion list (pbt/props/c15_forms.py, counted in evidence); outputs compared by value and shape", "4/C15"),
+    "C16": ("enumeration of every API entry marked 'SymPy: supported' (by reflection) x symbolic/numeric argument masks x substitution points + Hypothesis-drawn points; differential oracle: symbolic output evaluated at the point vs the numeric call",
+            EXPL + "the entry table is checked at start-up against the docstring markers; each entry is called with all-symbolic and mixed arguments and every output entry is evaluated with SymPy at random and special points and compared with the numeric call to 1e-12; structural 0/1 entries must stay exact; pose operators on symbolic values are included.",
+            "SymPy evalf; one recorded finding (F-C16-1, SE3.Delta symbolic vs normalised numeric) is excluded by site", "4/C16"),
+    "C17": ("model-free stateful generation: operation histories over a pool of values into which every result is fed back, with byte-level snapshots of every pool member before/after each call; exhaustive single operations and ordered pairs; C15 table and reflected zero-argument members",
+            EXPL + "352 operations (base functions, constructors, operators incl. augmented ones, accessors, conversions, documented list mutators) are run singly, in every ordered pair and in random histories with results flowing into later calls; any change of an argument, operand or bystander other than the receiver of a list mutator, and any difference between two calls on equal inputs, is a violation.",
+            "byte-level snapshot (tobytes/shape/dtype) of arrays, containers and object data; views are allowed; plot/animate/printline excluded", "4/C17"),
 })
 
 NOT_YET = {}
